@@ -819,6 +819,14 @@ def check_bounds_map(prog, res, rule='L7'):
             s.targets if isinstance(s, ast.Assign) else [s.target])} &
                  sym_names)
         and not (isinstance(s, ast.Assign) and dotted(s.value) == 'weights')]
+  # the one-sided and unbounded branches are judged on the statements that
+  # write the kernel; the two-sided branch keeps its helper locals
+  def _writes_kernel(s):
+    ts = s.targets if isinstance(s, ast.Assign) else [s.target]
+    return 'final_projection' in {dotted(t) for t in ts}
+  for k in list(branches):
+    if k != (True, True):
+      branches[k] = [s for s in branches[k] if _writes_kernel(s)]
   # one-sided: final += relu(min - aggmin(final)) ; final -= relu(aggmax - max)
   for key, (op, lhs, rhs, word) in {
       (True, False): (ast.Add, 'output_min', 'tf.reduce_min', 'min'),
@@ -872,7 +880,13 @@ def check_bounds_map(prog, res, rule='L7'):
       env['final_projection'] = x
     else:
       tgt = dotted(s.targets[0])
-      v = ratfun.eval_expr(s.value, env)
+      try:
+        v = ratfun.eval_expr(s.value, env)
+      except AnalysisError:
+        if tgt == 'final_projection':
+          raise
+        env.pop(tgt, None)       # unrelated local: an error only if used
+        continue
       env[tgt] = v
       if tgt == 'final_projection':
         x = v
@@ -946,7 +960,10 @@ def check_bounds_map(prog, res, rule='L7'):
       if tgt == 'final_projection':
         walk_kernel(s_.value)
       else:
-        env2[tgt] = ratfun.eval_expr(s_.value, env2)
+        try:
+          env2[tgt] = ratfun.eval_expr(s_.value, env2)
+        except AnalysisError:
+          env2.pop(tgt, None)
   res.check(not not_neutral, 'R2',
             '_approximately_project_bounds|two-sided|stepwise-identity',
             fn.loc(),
